@@ -12,6 +12,12 @@ reopen (close + NpyStore(path)), pickle (dumps, close, loads).  reopen/pickle/cl
     points in earlier operations are the last-operation kill points of the prefix sequences, which are all enumerated); afterwards
     numpy.load(file) must succeed and equal one of the logical contents between the last completed flush and the end of the
     interrupted operation.  "before call k" leaves the same file as "after call k-1", so the quick tier only runs the latter.
+(c) preloaded: the store is opened over an EXISTING file that holds more rows than the store exposes - PRELOADS: NpyStore(file, bs,
+    n_batches=k) over a file with more than k batches ('longer'), or NpyStore(file, bs) over a file whose length is not a multiple
+    of the batch size ('ragged': n_batches = len // bs).  Same comparison with the in-memory list; numpy.load after flush/close must
+    START with the stored batches (the file may legitimately hold further rows); reopen passes n_batches = len(store).  The harness
+    tracks the physical row count: `store[len] = batch` may raise IndexError only when the ragged tail leaves no room for a whole
+    batch (bs*len < rows < bs*(len+1)); if it does not raise, the batch must read back exactly.
 """
 import io
 import itertools
@@ -28,6 +34,8 @@ FLUSHLIKE = ('flush', 'reopen', 'pickle')
 CONFIGS = [('f8', ()), ('i4', (2,)), ('i4', ()), ('f8', (2,))]
 BS = 2
 LOW = ('seek', 'write', 'truncate', 'flush', 'close')
+# (kind, physical rows in the file, n_batches passed to NpyStore or None for the default -1)
+PRELOADS = [('longer', 4 * BS, 2), ('longer', 2 * BS, 0), ('longer', 3 * BS, 1), ('ragged', 2 * BS + 1, None), ('ragged', 1, None), ('ragged', 3 * BS + 1, 1)]
 
 
 def _tmpdir():
@@ -78,13 +86,25 @@ class Fail(Exception):
 
 
 class Runner:
-    def __init__(self, S, path, cfg, ctl=None):
+    def __init__(self, S, path, cfg, ctl=None, preload=None):
         self.S, self.path, self.ctl = S, path, ctl
         self.dtype, self.rshape = np.dtype(cfg[0]), tuple(cfg[1])
         self.model, self.counter, self.initialised = [], 0, False
+        self.preload = preload
+        self.phys = 0                   # rows physically in the file (tracked for preloaded histories)
+        if preload is not None:
+            kind, rows, nb = preload
+            n = rows * int(np.prod(self.rshape, dtype=int))
+            content = (np.arange(n) + 7000).reshape((rows,) + self.rshape).astype(self.dtype)
+            S.NpyArray(path, content).close()
+            self.store = S.NpyStore(path, BS) if nb is None else S.NpyStore(path, BS, n_batches=nb)
+            k = rows // BS if nb is None else nb
+            self.model = [content[BS * i:BS * (i + 1)].copy() for i in range(k)]
+            self.phys, self.initialised = rows, True
+        else:
+            self.store = S.NpyStore(path, BS)
         self.snapshots = [self.content()]
         self.flushed_at = None          # index into snapshots of the state at the last completed flush-like op
-        self.store = S.NpyStore(path, BS)
         self.wrap()
 
     def wrap(self):
@@ -112,8 +132,19 @@ class Runner:
         st, m = self.store, self.model
         if op == 'append':
             b = self.batch()
-            st[len(m)] = b
-            m.append(b)
+            if self.preload is not None and BS * len(m) < self.phys < BS * (len(m) + 1):
+                # ragged tail without room for a whole batch: IndexError is acceptable; silently storing is too, IF it reads back
+                try:
+                    st[len(m)] = b
+                except IndexError:
+                    self.snapshots.append(self.content())
+                    return
+                m.append(b)
+                self.phys = max(self.phys, BS * len(m))
+            else:
+                st[len(m)] = b
+                m.append(b)
+                self.phys = max(self.phys, BS * len(m))
             self.initialised = True
         elif op in ('overwrite', 'overwrite_last'):
             b = self.batch()
@@ -131,11 +162,13 @@ class Runner:
             if m:
                 del st[len(m) - 1]
                 m.pop()
+                self.phys = BS * len(m)
         elif not self.initialised and op in ('clear', 'reopen', 'pickle'):
             pass      # the property is about initialised stores
         elif op == 'clear':
             st.clear()
             del m[:]
+            self.phys = 0
         elif op == 'flush':
             st.flush()
             if self.initialised:
@@ -144,7 +177,7 @@ class Runner:
         elif op == 'reopen':
             st.close()
             self.check_file('close')
-            self.store = self.S.NpyStore(self.path, BS)
+            self.store = self.S.NpyStore(self.path, BS) if self.preload is None else self.S.NpyStore(self.path, BS, n_batches=len(m))
             self.wrap()
             self.flushed_at = len(self.snapshots)
         elif op == 'pickle':
@@ -164,6 +197,12 @@ class Runner:
         except Exception as e:
             raise Fail('file', 'numpy.load fails after %s: %s: %s' % (after, type(e).__name__, str(e)[:80]))
         want = self.content()
+        if self.preload is not None:
+            # the file may hold rows beyond the exposed batches: it must START with the stored batches
+            if a.dtype != want.dtype or a.shape[1:] != want.shape[1:] or len(a) < len(want) or not np.array_equal(a[:len(want)], want):
+                raise Fail('file', 'numpy.load after %s gives %s rows %s, which do not start with the %s rows the store holds %s'
+                           % (after, a.shape[0], a.tolist()[:6], want.shape[0], want.tolist()[:6]))
+            return
         if a.dtype != want.dtype or a.shape != want.shape or not np.array_equal(a, want):
             raise Fail('file', 'numpy.load after %s gives %s rows %s, the store holds %s rows %s' % (after, a.shape[0], a.tolist()[:6], want.shape[0], want.tolist()[:6]))
 
@@ -190,17 +229,19 @@ def _path(tag):
     return os.path.join(_tmpdir(), 'a%s.npy' % tag)
 
 
-def run_sequence(S, cfg, seq, count_last=False):
+def run_sequence(S, cfg, seq, count_last=False, preload=None):
     """functional run -> (failure dict or None, info).  info = dict(calls=#file calls of the last op, names, hist=[contents], flushed)"""
     path = _path('f')
     if os.path.exists(path):
         os.remove(path)
     ctl = dict(active=False, count=0, target=None, names=[]) if count_last else None
     inp = dict(dtype=cfg[0], row_shape=list(cfg[1]), batch_size=BS, seq=list(seq))
+    if preload is not None:
+        inp['preload'] = list(preload)
     r = None
     try:
         with native.time_limit(20):
-            r = Runner(S, path, cfg, ctl)
+            r = Runner(S, path, cfg, ctl, preload)
             for j, op in enumerate(seq):
                 if ctl is not None and j == len(seq) - 1:
                     ctl['active'] = True
@@ -298,8 +339,25 @@ def run(tier='quick', seed=0):
                bound='sequences <= %d%s with a completed flush before the last op; kill before the first file call, after every file call%s and right '
                      'after the last op; %s' % (LK, ' starting with append' if tier == 'quick' else '', '' if tier == 'quick' else ' (and before every one)', kcfgs),
                rule='non-trivial = kill inside or right after an operation that changes the content, after an earlier append', cases=0, nontrivial=0, failures=[])
-    seen_f, seen_k = set(), set()
+    LP = 3 if tier == 'quick' else 4
+    pcfgs = CONFIGS[1:2] if tier == 'quick' else CONFIGS
+    pre = dict(name='npystore-preloaded-files', bound='sequences <= %d over the same ops on a store opened over an existing file; preloads (kind, rows, n_batches) %s; %s'
+               % (LP, PRELOADS, pcfgs),
+               rule='non-trivial = sequence that appends (writes batch index len(store)) while the file holds rows beyond the exposed batches',
+               cases=0, nontrivial=0, failures=[])
+    seen_f, seen_k, seen_p = set(), set(), set()
     try:
+        for cfg in pcfgs:
+            for pl in PRELOADS:
+                for seq in sequences(LP):
+                    f, _ = run_sequence(S, cfg, seq, preload=pl)
+                    pre['cases'] += 1
+                    if 'append' in seq and 'clear' not in seq[:seq.index('append')]:
+                        pre['nontrivial'] += 1
+                    if f and f['signature'] not in seen_p:
+                        seen_p.add(f['signature'])
+                        f['signature'] = f['signature'].replace('c06:', 'c06:preloaded-')
+                        pre['failures'].append(f)
         for cfg in cfgs:
             for seq in sequences(6 if cfg in L6 else L):
                 want_kill = cfg in kcfgs and len(seq) <= LK and any(o in FLUSHLIKE for o in seq[:-1]) and (tier != 'quick' or seq[0] == 'append')
@@ -323,7 +381,7 @@ def run(tier='quick', seed=0):
                             kil['failures'].append(kf)
     finally:
         shutil.rmtree(_tmpdir(), ignore_errors=True)
-    return [fun, kil]
+    return [fun, kil, pre]
 
 
 def search(cname, crash):
@@ -337,7 +395,23 @@ def search(cname, crash):
     last = tail.get(meth, ())
     seqs = sorted(sequences(4), key=lambda q: (last.index(q[-1]) if q[-1] in last else 9, len(q)))
     n = 0
+    store_level = ('NpyStore.' in cname or 'ArrayStore.' in cname) and not crash
+
+    def preloaded():
+        nonlocal n
+        for cfg in (CONFIGS[1], CONFIGS[0]):
+            for pl in PRELOADS:
+                for seq in sorted(sequences(3), key=lambda q: (last.index(q[-1]) if q[-1] in last else 9, len(q))):
+                    f, _ = run_sequence(S, cfg, seq, preload=pl)
+                    n += 1
+                    if f:
+                        return dict(found=True, input=f['input'], observed=f['what'])
+        return None
     try:
+        if store_level:
+            r = preloaded()
+            if r:
+                return r
         for cfg in (CONFIGS[1], CONFIGS[0]):
             for seq in seqs:
                 want_kill = crash and any(o in FLUSHLIKE for o in seq[:-1])
@@ -353,9 +427,13 @@ def search(cname, crash):
                         n += 1
                         if kf:
                             return dict(found=True, input=kf['input'], observed=kf['what'])
+        if not crash and not store_level:
+            r = preloaded()
+            if r:
+                return r
     finally:
         shutil.rmtree(_tmpdir(), ignore_errors=True)
-    return dict(found=False, searched='sequences <= %d%s' % (4, ' x kill at every file call of the last op' if crash else ''), cases=n)
+    return dict(found=False, searched='sequences <= %d%s; preloaded files <= 3' % (4, ' x kill at every file call of the last op' if crash else ''), cases=n)
 
 
 def replay_input(inp):
@@ -363,8 +441,9 @@ def replay_input(inp):
     S = store_module()
     cfg = (inp['dtype'], tuple(inp['row_shape']))
     seq = tuple(inp['seq'])
+    pl = tuple(inp['preload']) if inp.get('preload') else None
     try:
-        f, info = run_sequence(S, cfg, seq, count_last=bool(inp.get('kill')))
+        f, info = run_sequence(S, cfg, seq, count_last=bool(inp.get('kill')), preload=pl)
         if f:
             print('observed: %s' % f['what'])
             return False
